@@ -499,18 +499,18 @@ class Body:
             if isinstance(e, tuple) and e[0] == "call" and (e[1] or "").endswith("::is_empty") and len(e[2]) == 1:
                 out.append((("bin", "Eq", ("call", e[1][: -len("is_empty")] + "len", e[2], None), ("const", None, 0, None, "usize")), truth))
             # Option::is_some / is_none  ->  discriminant test
-            if isinstance(e, tuple) and e[0] == "call" and rx(r"^core::option::Option<T>::(is_some|is_none)$|^core::option::Option::(is_some|is_none)$").search(e[1] or "") and len(e[2]) == 1:
+            if isinstance(e, tuple) and e[0] == "call" and rx(r"^core::option::Option(<T>)?::(is_some|is_none)$").search(e[1] or "") and len(e[2]) == 1:
                 some = (e[1].endswith("is_some")) == truth
                 out.append((("discr", e[2][0], "core::option::Option"), "Some" if some else "None"))
-            if isinstance(e, tuple) and e[0] == "call" and rx(r"^core::result::Result<T, E>::(is_ok|is_err)$").search(e[1] or "") and len(e[2]) == 1:
+            if isinstance(e, tuple) and e[0] == "call" and rx(r"^core::result::Result(<T, E>)?::(is_ok|is_err)$").search(e[1] or "") and len(e[2]) == 1:
                 okv = (e[1].endswith("is_ok")) == truth
                 out.append((("discr", e[2][0], "core::result::Result"), "Ok" if okv else "Err"))
         elif isinstance(lab, str) and isinstance(c, tuple) and c[0] == "discr":
             if c[2] == "core::option::Option" and lab in ("Some", "None"):
-                out.append((("call", "core::option::Option<T>::is_some", (c[1],), None), lab == "Some"))
-                out.append((("call", "core::option::Option<T>::is_none", (c[1],), None), lab == "None"))
+                out.append((("call", "core::option::Option::is_some", (c[1],), None), lab == "Some"))
+                out.append((("call", "core::option::Option::is_none", (c[1],), None), lab == "None"))
             if c[2] == "core::result::Result" and lab in ("Ok", "Err"):
-                out.append((("call", "core::result::Result<T, E>::is_ok", (c[1],), None), lab == "Ok"))
+                out.append((("call", "core::result::Result::is_ok", (c[1],), None), lab == "Ok"))
         return out
 
     def guards(self, site, _depth=0):
